@@ -98,8 +98,36 @@ def h_badchar(ctx, n, pos):
     try:
         B.decode(s)
         ctx.check(inalpha, 'dec: invalid character raises InvalidBase58Error')
+        return
     except B.InvalidBase58Error:
         ctx.check(ctx.not_(inalpha), 'dec: InvalidBase58Error only for characters outside the alphabet')
+    # history: the refusal is repeatable - the same text, and another text with the same character, are refused again
+    for what, t in (('same text again', s), ('same character in another text', ctx.str_concat('2', c))):
+        try:
+            B.decode(t)
+            ctx.fail('dec: invalid character raises InvalidBase58Error', detail=what + ' after a first refusal')
+        except B.InvalidBase58Error:
+            pass
+    # ... and a valid text still decodes to its value afterwards
+    ctx.check(B.decode('2g') == ctx.B(b'a'), 'dec: value == reference big-integer definition', detail='valid text after a refusal')
+
+
+TRICKY = ['a3gV\n', '\na3gV', 'a3gV ', ' a3gV', 'a3gV\r\n', 'a3g\x00V', 'a3gV\x00', 'a3gO', 'a3g0', 'Ia3g', 'a3lg', 'a3gV\u0661', 'a3gV\uff11',
+          'a3g-V', '+a3gV', 'a3g_V', 'a3gV\x0b', 'a3gV\x0c', 'a3gV\t', '\u00e9', 'a3gV\n\n', '1\n', '\n', 'a3gV\u2028', 'a3gV\x85',
+          '3Qa2ZsvHmfJPAFrB1nqtwUBszh3yryipM\n', ' 1HHCo7ZzdzWXNBzZzxZvjXX6Zu7izDSbZ2']
+
+
+def h_badfixed(ctx, k):
+    """fixed texts with one character outside the alphabet in a position where text-processing shortcuts go wrong (line ends,
+    blanks, look-alike digits); concrete runs of the shadow library - a solver does not steer regular-expression or Unicode tables"""
+    B = ctx.mod('bitcoin.base58')
+    s = TRICKY[k]
+    for fn, what in ((B.decode, 'decode'), (B.CBase58Data, 'CBase58Data')):
+        try:
+            fn(s)
+            ctx.fail('dec: invalid character raises InvalidBase58Error', detail='%s(%r) accepted' % (what, s))
+        except B.InvalidBase58Error:
+            ctx.check(True, 'dec: invalid character raises InvalidBase58Error')
 
 
 class _Patched(object):
@@ -211,7 +239,7 @@ def h_text(ctx, plen):
             pass
 
 
-HARNESSES = {'enc': h_enc, 'dec': h_dec, 'badchar': h_badchar, 'check': h_check, 'check4': h_check4, 'text': h_text}
+HARNESSES = {'badfixed': h_badfixed, 'enc': h_enc, 'dec': h_dec, 'badchar': h_badchar, 'check': h_check, 'check4': h_check4, 'text': h_text}
 
 
 def instances(tier):
@@ -227,6 +255,8 @@ def instances(tier):
             out.append(dict(h='dec', p=dict(n=n, ones=o)))
     for n, pos in ((1, 0), (3, 0), (3, 1), (3, 2), (6, 3)):
         out.append(dict(h='badchar', p=dict(n=n, pos=pos)))
+    for k in range(len(TRICKY)):
+        out.append(dict(h='badfixed', p=dict(k=k)))
     for n in range(0, 41):
         out.append(dict(h='check', p=dict(n=n)))
     out.append(dict(h='check4'))
